@@ -15,43 +15,35 @@ import fw
 HOOK = "VERIF_MC_TRACES"
 
 
-def gen_program(rng):
-    """deadlock-free by construction: locks/semaphores taken in increasing global order and released; every mailbox has one
-    receiving actor and as many puts as gets; no communication while holding a lock"""
-    na = rng.choice([2, 2, 2, 3])
-    budget = {2: rng.choice([2, 3, 3]), 3: 2}[na]   # synchronisation blocks per actor
+def gen_program(rng, shapes):
+    """deadlock-free by construction: locks/semaphores taken in increasing global order and released; one mailbox with one
+    receiving actor and as many puts as gets; no communication while holding a lock.
+    shapes: list of tuples = number of synchronisation blocks per actor"""
+    shape = rng.choice(shapes)
+    na = len(shape)
     actors = [[] for _ in range(na)]
-    use_comm = rng.random() < 0.5
+    use_comm = rng.random() < 0.4
     recv = rng.randrange(na) if use_comm else None
     nput = 0
     for a in range(na):
-        for _ in range(budget if a != recv else max(1, budget - 1)):
+        for _ in range(shape[a]):
             r = rng.random()
-            if use_comm and a != recv and r < 0.45:
+            if use_comm and a != recv and r < 0.5:
                 actors[a].append("P0")
                 nput += 1
-            elif r < 0.8:
+            elif use_comm and a == recv:
+                continue            # the receiver only receives (plus at most one block below)
+            elif r < 0.75:
                 m = rng.randrange(2)
-                if rng.random() < 0.3 and m == 0:
-                    actors[a] += ["L0", "L1", "U1", "U0"] if rng.random() < 0.5 else ["L0", "A0", "R0", "U0"]
-                else:
-                    actors[a] += ["L%d" % m, "U%d" % m]
+                actors[a] += ["L%d" % m, "U%d" % m]
             else:
-                s = rng.randrange(2)
-                actors[a] += ["A%d" % s, "R%d" % s]
+                sm = rng.randrange(2)
+                actors[a] += ["A%d" % sm, "R%d" % sm]
     if use_comm:
-        gets = ["G0"] * nput
-        # interleave the gets with the receiver's other operations, outside of lock blocks: put them at block boundaries
-        ops = actors[recv]
-        blocks, cur, depth = [], [], 0
-        for op in ops:
-            cur.append(op)
-            depth += 1 if op[0] in "LA" else -1
-            if depth == 0:
-                blocks.append(cur)
-                cur = []
-        for g in gets:
-            blocks.insert(rng.randint(0, len(blocks)), [g])
+        blocks = [["G0"] for _ in range(nput)]
+        if rng.random() < 0.5:
+            m = rng.randrange(2)
+            blocks.insert(rng.randint(0, len(blocks)), ["L%d" % m, "U%d" % m])
         actors[recv] = [op for b in blocks for op in b]
     return "/".join(",".join(a) for a in actors)
 
@@ -87,8 +79,10 @@ def explore(prog_exe, program, reduction, timeout):
     return rc, ex, (so + se)[-600:]
 
 
-CORPUS = ["L0,U0/L0,U0", "L0,U0,L1,U1/L1,U1,L0,U0", "A0,R0/A0,R0/L0,U0", "P0,L0,U0/G0,L0,U0", "A1,R1/A1,R1/A1,R1",
-          "L0,L1,U1,U0/L1,U1/A0,R0", "P0,P0/L0,U0,G0,G0"]
+CORPUS_QUICK = ["L0,U0/L0,U0", "P0,L0,U0/G0,L0,U0", "A1,R1/A1,R1", "P0/P0/G0,G0"]
+CORPUS_THOROUGH = ["A0,R0/A0,R0/L0,U0", "A1,R1/A1,R1/A1,R1", "L0,L1,U1,U0/L1,U1", "P0,P0/L0,U0,G0,G0"]
+SHAPES_QUICK = [(1, 1), (2, 1), (1, 2)]
+SHAPES_THOROUGH = [(1, 1), (2, 1), (1, 2), (1, 1, 1)]   # larger shapes: > 10^4 unreduced executions, minutes each
 
 
 def run(ctx):
@@ -96,13 +90,16 @@ def run(ctx):
     ctx.prove()
     prog = fw.build_harness("mc1_prog", extra=["-std=gnu++20"])
     os.makedirs(os.path.join(fw.B, "run"), exist_ok=True)
-    programs = list(CORPUS) + [gen_program(ctx.rng) for _ in range(ctx.n(25, 300))]
+    shapes = SHAPES_QUICK if ctx.quick else SHAPES_THOROUGH
+    programs = list(CORPUS_QUICK) + ([] if ctx.quick else list(CORPUS_THOROUGH))
+    programs += [gen_program(ctx.rng, shapes) for _ in range(ctx.n(6, 40))]
+    programs = list(dict.fromkeys(programs))
     if ctx.replay:
         programs = [json.load(open(ctx.replay))["case"]["program"]]
-    ctx.cov["rule"] = ("generated S4U programs, 2..3 actors, 2..3 synchronisation blocks each (mutex lock/unlock on 2 mutexes, nested in a "
-                       "global order; semaphore acquire/release, capacities 1 and 2; blocking put/get on one mailbox), deadlock-free by "
-                       "construction; explored with reduction none and odpor (DFS). non-trivial = the unreduced exploration has more "
-                       "executions than classes and more than one class")
+    ctx.cov["rule"] = ("generated S4U programs, 2..3 actors, 1..2 synchronisation blocks each (mutex lock/unlock on 2 mutexes; semaphore "
+                       "acquire/release, capacities 1 and 2; blocking put/get on one mailbox), deadlock-free by construction; explored with "
+                       "reduction none and odpor (DFS). non-trivial = the unreduced exploration has more executions than classes and more "
+                       "than one class")
     dist = {"programs": 0, "skipped_error_or_timeout": 0, "executions_none": 0, "executions_odpor": 0, "classes": 0, "max_len": 0}
     for program in programs:
         case = {"program": program}
@@ -115,34 +112,38 @@ def run(ctx):
             ctx.fail("odpor-run-failed", "simgrid-mc reduction:odpor ends with rc=%d on %r although reduction:none explores it cleanly: %s"
                      % (rc1, program, log1), case)
             continue
-        # letters: (actor, k-th transition of that actor, type, text)
-        letters, dep = {}, {}
-        words = []
-        bad = None
+        # letters: (actor, rank of the transition within its actor, type) -- the identity MazurkiewiczTraces::are_equivalent uses;
+        # the text is not part of it (it shows state such as the current owner of a mutex).  The dependency relation is the
+        # execution's own matrix; two executions can only be equivalent when they agree on it, so it is part of the class key.
+        letters = {}
+        words, mats, bad = [], [], None
         for e in ex0 + ex1:
             cnt, w = {}, []
             for (aid, typ, text) in e["T"]:
                 k = cnt.get(aid, 0)
                 cnt[aid] = k + 1
-                w.append(letters.setdefault((aid, k, typ, text), len(letters)))
+                w.append(letters.setdefault((aid, k, typ), len(letters)))
+            d = {}
             for i, a in enumerate(w):
                 for j, b in enumerate(w):
                     if i != j:
-                        if dep.setdefault((a, b), e["D"][i][j]) != e["D"][i][j]:
-                            bad = ("dep-not-a-function", "dispatch_depends differs between two occurrences of the same pair of transitions")
+                        d[(a, b)] = e["D"][i][j]
+                    elif e["D"][i][j] != 1:
+                        bad = ("dep-irreflexive", "dispatch_depends(t,t)=0 for %s" % (e["T"][i],))
+            for (a, b), v in d.items():
+                if d[(b, a)] != v:
+                    inv = {i: l for l, i in letters.items()}
+                    bad = ("dep-asymmetric", "dispatch_depends of %s and %s is %d one way and %d the other" % (inv[a], inv[b], v, d[(b, a)]))
             words.append(w)
-        n = len(letters)
-        for (a, b), v in dep.items():
-            if dep.get((b, a), v) != v:
-                inv = {i: l for l, i in letters.items()}
-                bad = ("dep-asymmetric", "dispatch_depends(%s,%s)=%d but the converse is %d" % (inv[a], inv[b], v, dep[(b, a)]))
+            mats.append(d)
         if bad:
             ctx.fail(bad[0], bad[1] + " in program %r" % program, case)
             continue
-        mat = [1 if a == b else dep.get((a, b), 0) for a in range(n) for b in range(n)]
-        nfs = fw.run_model("c40", "run_c40_nf", [[n] + mat + w for w in words])
-        nf0 = [tuple(x) for x in nfs[:len(ex0)]]
-        nf1 = [tuple(x) for x in nfs[len(ex0):]]
+        n = len(letters)
+        nfs = fw.run_model("c40", "run_c40_nf",
+                           [[n] + [1 if a == b else d.get((a, b), 0) for a in range(n) for b in range(n)] + w for w, d in zip(words, mats)])
+        keys = [(tuple(x), tuple(sorted(d.items()))) for x, d in zip(nfs, mats)]
+        nf0, nf1 = keys[:len(ex0)], keys[len(ex0):]
         classes = set(nf0)
         dist["programs"] += 1
         dist["executions_none"] += len(ex0)
@@ -164,8 +165,9 @@ def run(ctx):
     ctx.assumptions += ["complete executions and the dependency matrix are read through the SIMGRID_VERIF hook in DFSExplorer "
                         "(checks/hook_commits.txt); DFS exploration only", "programs that deadlock, raise an error or do not finish "
                         "within the time limit under reduction:none are skipped (counted)",
-                        "a letter is (actor, rank of the transition within its actor, type, verbose text); dependency is assumed to "
-                        "be a function of the two letters (checked) and symmetric (checked)"]
+                        "a letter is (actor, rank of the transition within its actor, type), as in MazurkiewiczTraces::are_equivalent; "
+                        "each execution is normalised under its own dependency matrix (checked symmetric and reflexive) and two executions "
+                        "are in the same class when normal form and matrix coincide"]
 
 
 META = {
